@@ -10,7 +10,7 @@ namespace Orca.Lower.Outline
 /-- the driver. Per local function with `has_special_instr` (`resolveSpecial`): the function-level bodies are taken out of the flag
     (`entry`, `exit` of `RState`), the wrapper opener is appended to the entry code when there is exit code (`entryToks`), the modifier
     is obtained (`get_fn_modifier`: last instruction's mode := before), then the loop over the copy of the body — one iteration =
-    `rstep` = `rpre` (function entry, then function exit) followed by `rcore`: the `match` on the operator (`block | loop | if`: push,
+    `rstep` = `rpre` (function entry, then function exit) followed by `rcore`: the `match` on the operator (`block | loop | if | try_table`: push - a `try_table` carries no special mode, M3 sees it as a `block` kind without any -,
     block alternate / removal; `else`: flush of the `if`'s pending exit bodies, block alternate / removal; `end`: pop, removal
     bookkeeping with `retain_end`, flush of the three tables; anything else: removal) — every removal path ends in `continue` —
     and behind it `planSpecial` under `has_instr()`: block entry, block exit, semantic after, each followed by `clear_instr_at` -/
@@ -21,7 +21,7 @@ def resolve_special_instrumentation : List String :=
    "if", ".is_empty()", "if", "else", "instr_func_on_entry =", "if", "else", "panic!", ".get_type_id()", ".get()",
    ".results()", ".add_func_type()", "resolve_function_exit_with_block_wrapper()", ".get_fn_modifier()", "for", "if",
    "if", ".is_empty()", "resolve_function_entry()", "if", "if", ".is_empty()", "resolve_function_exit()", "match",
-   "Operator::Block", "Operator::Loop", "Operator::If", ".push()", "if", "if", ".is_none()",
+   "Operator::Block", "Operator::Loop", "Operator::If", "Operator::TryTable", ".push()", "if", "if", ".is_none()",
    "plan_resolution_block_alt()", "discard_special_instrumentation()", "delete_block =", ".last()", "continue", "if",
    ".is_some()", ".empty_alternate_at()", "discard_special_instrumentation()", "continue", "Operator::Else", "if",
    ".remove()", ".last()", "for", "resolve_bodies()", "if", "if", ".is_none()", "plan_resolution_block_alt()",
